@@ -40,6 +40,9 @@ func repoRoot() string {
 // Load loads ./... of the repository with full syntax and builds SSA.
 func Load(root string) (*Prog, error) {
 	env := append(os.Environ(), "GOFLAGS=-mod=mod", "GOPROXY=off", "GOSUMDB=off", "GOTOOLCHAIN=local", "GOWORK=off")
+	if extra := os.Getenv("CTVERIF_LOADENV"); extra != "" {
+		env = append(env, strings.Fields(extra)...)
+	}
 	cfg := &packages.Config{
 		Mode:  packages.LoadAllSyntax,
 		Dir:   root,
